@@ -13,3 +13,27 @@ package mapslicehelp
 //@     loopuse i + 1 < len(elements) ==> idxOf_def(elements, elements[i + 1], i + 1)
 //@     decreases len(elements) - i
 //@   ensures[C08,C05] !isNil(result) && forall(k Int, hasKey(result, k) ==> inSlice(elements, k), trigger(hasKey(result, k)))
+
+// C06: RemoveSequences is total - whatever ranges it is given (overlapping, unsorted, out of range), every slice
+// expression stays within s. (It panicked on overlapping ranges before the repair recorded as F9.) The sorted map is a
+// library type: Map() and Keys() are assumed to return without effect; nothing is assumed about their contents.
+//@ func RemoveSequences
+//@   loop key as k
+//@     invariant 0 <= keepFrom && keepFrom <= len(s)
+
+// C06: the small slice helpers of the ring assembly never index out of range and terminate.
+//@ func ReverseClone
+//@   loop i
+//@     invariant 0 <= i && i <= l && l == len(s) && len(c) == l
+//@     invariant forall(k, 0, i, c[l - 1 - k] == s[k])
+//@     decreases l - i
+//@   ensures[C06,C05] len(result) == len(s) && forall(k, 0, len(s), result[len(s) - 1 - k] == s[k])
+//@ func DeleteFromSliceByIndex
+//@   requires 0 - 1152921504606846976 <= indexOffset && indexOffset <= 1152921504606846976
+//@   loop i as k
+//@     invariant len(r) <= k + 1
+//@   ensures[C06] len(result) <= len(s)
+//@ func LastMatch
+//@   loop i
+//@     invariant 0 - 1 <= i && i < len(haystack)
+//@     decreases i + 1
